@@ -9,6 +9,7 @@ mod c06;
 mod c07;
 mod c08;
 mod c09;
+mod c12;
 mod c14;
 mod classify;
 mod engine;
@@ -64,6 +65,7 @@ fn main() {
         "C07" => dispatch(&c07::C07, mode, &rest),
         "C08" => dispatch(&c08::C08, mode, &rest),
         "C09" => dispatch(&c09::C09, mode, &rest),
+        "C12" => dispatch(&c12::C12, mode, &rest),
         "C14" => dispatch(&c14::C14, mode, &rest),
         _ => {
             eprintln!("unknown property {id}");
